@@ -517,14 +517,14 @@ func (fr *Frame) loopModifies(li *loopInfo, st *State) []string {
 		}
 	}
 	var out []string
-	for k := range set {
+	for _, k := range sortedKeys(set) {
 		if _, ok := vc.compSort[k]; !ok {
 			continue // never touched so far: its initial constant is unconstrained anyway... but must be havocked if touched later
 		}
 		out = append(out, k)
 	}
 	// components not yet materialised: materialise with a declared sort where known
-	for k := range set {
+	for _, k := range sortedKeys(set) {
 		if _, ok := vc.compSort[k]; !ok {
 			if srt := vc.sortForKey(k); srt != "" {
 				vc.compSort[k] = srt
